@@ -294,7 +294,7 @@ func init() {
 			var jobs []run.Job
 			n, per := 32, 3000
 			if tier == "thorough" {
-				n, per = 128, 4000
+				n, per = 128, 12000
 			}
 			for i := 0; i < n; i++ {
 				jobs = append(jobs, run.Job{Family: "files", Seed: seed*100000 + int64(i), N: per})
